@@ -249,14 +249,40 @@ def generate(repo, g):
     g.define('envCatch', 'List String', lean_list(names),
              'api/environment.py:Environment._get_subprocess except clause around the version handshake')
 
-    # --- Listener.listen: what the helper survives
+    # --- Listener.listen: what the helper survives.  `while True:` with exactly one try around
+    # `self._run(*payload)` directly in the loop body; every handler only builds the exception reply
+    # `result = (True, traceback.format_exc(), e)`; no other try in `listen` may swallow what escapes
+    # (the try around pickle_load catches EOFError and exits), and __main__ calls listen() bare.
     li = sub.find('Listener.listen')
     t = _try_with_call(li, 'self._run', 'Listener.listen')
+    loops = [n for n in li.body if isinstance(n, ast.While)]
+    if len(loops) != 1 or u(loops[0].test) != 'True' or t not in loops[0].body or loops[0].orelse:
+        raise TieBroken('Listener.listen: the try around self._run is no longer a statement of the one '
+                        '`while True:` loop', u(li))
+    if t.finalbody or t.orelse or [u(x) for x in t.body] != ['result = (False, None, self._run(*payload))']:
+        raise TieBroken('Listener.listen: the try around self._run changed shape', u(t))
     names = []
     for h in t.handlers:
         names += except_names(h)
+        if h.name is None or [u(x) for x in h.body] != ['result = (True, traceback.format_exc(), %s)' % h.name]:
+            raise TieBroken('Listener.listen: a handler around self._run does something else than building '
+                            'the exception reply (True, traceback, e)', u(h))
+    others = [n for n in ast.walk(li) if isinstance(n, ast.Try) and n is not t]
+    for o in others:
+        calls = [u(c.func) for b in o.body for c in ast.walk(b) if isinstance(c, ast.Call)]
+        if calls != ['pickle_load'] or [except_names(h) for h in o.handlers] != [['EOFError']] \
+                or o.finalbody or o.orelse or o not in loops[0].body:
+            raise TieBroken('Listener.listen: an additional try statement', u(o))
     g.define('listenRunCatch', 'List String', lean_list(names),
              'subprocess/__init__.py:Listener.listen except clause around self._run')
+    mainsrc = Src(repo, 'jedi/inference/compiled/subprocess/__main__.py')
+    top = [n for n in mainsrc.tree.body if any(isinstance(c, ast.Call) and u(c.func).endswith('.listen')
+                                               for c in ast.walk(n))]
+    if len(top) != 1 or u(top[0]) != 'subprocess.Listener().listen()':
+        raise TieBroken('subprocess/__main__.py no longer ends in a bare `subprocess.Listener().listen()`',
+                        repr([u(x) for x in top]))
+    g.define('mainCallsListenBare', 'Bool', 'true',
+             'subprocess/__main__.py: `subprocess.Listener().listen()` is a top-level statement (no try around it)')
 
     for f in ('CompiledSubprocess._send', 'CompiledSubprocess._kill', 'CompiledSubprocess.run',
               'CompiledSubprocess._get_process', 'CompiledSubprocess.delete_inference_state',
